@@ -87,6 +87,11 @@ def gen(tier, idx):
         elif k == 'dumpk': ops.append(['dumpk', [K() for _ in range(r.choice([1, 2]))]])
         else: ops.append([k])
     if idx % 3 == 0: ops.append(['setitem', K(), NONASCII])         # (text beyond ASCII is stored in every third case)
+    if codec == 'source' and bytecode:
+        # one key rewritten at once with values whose source text has the same length (1, 2, 3): every store is read back before the next one
+        # (the reads leave compiled byte code behind), all inside one second - the import system's staleness check (mtime in whole seconds, size)
+        # cannot tell the versions apart, so nothing compiled may outlive the source it was compiled from
+        k0 = K(); ops += [['setitem', k0, 1], ['setitem', k0, 2], ['setitem', k0, 3]]
     if cached:
         ops.append(['dump'])
         if r.random() < 0.5 and len(values) > 1:
